@@ -331,7 +331,31 @@ func roundTrip(t *core.T, ls mvt.Layers) (data []byte, ok bool) {
 		return data, false
 	}
 	compare(t, "mvt.UnmarshalGzipped", ls, out2)
-	return data, true
+	if t.Failed() {
+		return data, false
+	}
+	// Aliasing: what Marshal/Unmarshal handed out must stay what it was when the caller
+	// goes on working - marshals another value, reuses the input buffer.
+	keepPlain, keepGz := append([]byte{}, data...), append([]byte{}, gz...)
+	other := mvt.Layers{&mvt.Layer{Name: "other-layer-with-a-longer-name", Version: 2, Extent: 512,
+		Features: []*geojson.Feature{{Type: "Feature", Geometry: orb.Point{7, 7}, Properties: geojson.Properties{"zzz": "a-different-value", "n": 12345.0}}}}}
+	if t.Guard("mvt.Marshal", func() { mvt.Marshal(other); mvt.MarshalGzipped(other) }) {
+		return data, false
+	}
+	if !bytes.Equal(data, keepPlain) || !bytes.Equal(gz, keepGz) {
+		t.Violate("result-aliased", "mvt.Marshal", "", "the bytes returned by Marshal/MarshalGzipped changed when another value was marshalled afterwards")
+		return data, false
+	}
+	scratch := append([]byte{}, data...)
+	var out3 mvt.Layers
+	if t.Guard("mvt.Unmarshal", func() { out3, err = mvt.Unmarshal(scratch) }) || err != nil {
+		return data, false
+	}
+	for i := range scratch {
+		scratch[i] = 0xAA // the caller reuses its read buffer
+	}
+	compare(t, "mvt.Unmarshal(input buffer reused afterwards)", ls, out3)
+	return data, !t.Failed()
 }
 
 func drawLayers(t *core.T) mvt.Layers {
